@@ -212,7 +212,8 @@ template <class F> static void stepCases(verif::Run& run, const char* tname) {
         C.res(std::string("d3stepUp.closed-form.") + tname, std::fabs((LD)d3stepUp(x) - (60 + 360 * s * (s - 1))) / (eps * (60 + 720 * s)), 8, "", at);
         C.exp(dstepDown(x) == -dstepUp(x) && d2stepDown(x) == -d2stepUp(x) && d3stepDown(x) == -d3stepUp(x), std::string("stepDown-derivatives-not-negated.") + tname, at);
         C.exp(stepUp(x) >= 0 && stepUp(x) <= 1 && dstepUp(x) >= 0, std::string("stepUp.out-of-range-or-decreasing.") + tname, at);
-        C.res(std::string("stepUp.symmetry.") + tname, std::fabs((LD)stepUp(x) + (LD)stepUp((F)(1 - x)) - 1) / eps, 16, "", at);
+        { LD s1 = (LD)(F)(1 - x); LD mag1 = s1 * s1 * s1 * (10 + s1 * (6 * s1 + 15));   // both values carry the Horner rounding of their 31 units of intermediate magnitude, and 1-x is rounded once
+          C.res(std::string("stepUp.symmetry.") + tname, std::fabs((LD)stepUp(x) + (LD)stepUp((F)(1 - x)) - 1) / (eps * (magU + mag1 + 2)), 8, "", at); }
         if (stepUp(x) < prevU) mono = false; prevU = stepUp(x);
         if (i > 2 && i < N - 2 && sizeof(F) == 8) {
             struct { int order; } o[3] = {{1}, {2}, {3}};
@@ -271,7 +272,9 @@ static std::vector<double> knotSet(int kind, int m, std::string& name) {
         case 1: name = "nonuniform"; n = std::max(11, 2 * m + 2); for (int i = 0; i < n; ++i) x.push_back(0.5 * i + 0.1 * ((i * 7) % 5) + 1); break;
         case 2: name = "clustered"; n = std::max(10, 2 * m + 1); { double t = 0, h = 1; for (int i = 0; i < n; ++i) { x.push_back(t); t += h; h *= 0.6; } } break;
         case 3: name = "minimal(2m)"; n = 2 * m; for (int i = 0; i < n; ++i) x.push_back(2 + 0.5 * i + 0.05 * (i % 2)); break;
-        default: name = "2m+1"; n = 2 * m + 1; for (int i = 0; i < n; ++i) x.push_back(-3 + 0.7 * i); break;
+        case 4: name = "2m+1"; n = 2 * m + 1; for (int i = 0; i < n; ++i) x.push_back(-3 + 0.7 * i); break;
+        case 5: name = "uniform30"; n = 30; for (int i = 0; i < n; ++i) x.push_back(0.1 * i); break;
+        default: name = "irregular17"; n = std::max(17, 2 * m + 1); { double t = -4; for (int i = 0; i < n; ++i) { x.push_back(t); t += 0.2 + 0.15 * ((i * 11) % 7); } } break;
     }
     return x;
 }
@@ -280,6 +283,7 @@ static LD dataFn(int kind, LD x, int order = 0) {   // data kinds 0..7: monomial
     // p(x) = sum_{j<=kind} (j+1)*(-0.5)^j (x-0.5)^j
     LD v = 0; for (int j = order; j <= kind; ++j) { LD f = 1; for (int k = 0; k < order; ++k) f *= (j - k); v += (j + 1) * std::pow(-0.5L, (LD)j) * f * std::pow(x - 0.5L, (LD)(j - order)); } return v;
 }
+static double degBound(int degree) { return degree == 1 ? 1e3 : degree == 3 ? 1e5 : degree == 5 ? 1e7 : 1e10; }   // >= 100 x the worst measured, see notes/C41.md
 static const char* MODE[] = {"p=0", "p=0.01", "p=10", "GCV", "errorVariance=1e-4", "dof=n/2"};
 
 static void splineCase(verif::Run& run, int degIdx, int knotKind, int dataKind, int mode) {
@@ -314,7 +318,7 @@ static void splineCase(verif::Run& run, int degIdx, int knotKind, int dataKind, 
         const LD cond = 1 + pUsed / std::pow(hminAll, (LD)(2 * m - 1));
         if (cond > 1e8L) run.count("note:spline-smoothing-system-condition>1e8");
         // (a) interpolation for p = 0
-        if (mode == 0) { LD w = 0; for (int i = 0; i < n; ++i) w = std::max(w, std::fabs((LD)s.calcValue(x[i]) - y[i])); C.res("Spline.interpolates-data(p=0).degree" + std::to_string(degree), w / (EPS * yScale), 1e6, "", ""); }
+        if (mode == 0) { LD w = 0; for (int i = 0; i < n; ++i) w = std::max(w, std::fabs((LD)s.calcValue(x[i]) - y[i])); C.res("Spline.interpolates-data(p=0).degree" + std::to_string(degree), w / (EPS * yScale), 1e3, "", ""); }
         // (b) exact reproduction of polynomials of degree < m, whatever the smoothing
         bool reproduces = dataKind != 8 && dataKind < m;
         // (c) each knot interval is one polynomial of degree <= 2m-1 ; (d) continuity ; (b)
@@ -341,16 +345,16 @@ static void splineCase(verif::Run& run, int degIdx, int knotKind, int dataKind, 
                 if (e >= 2) for (int k = 2 * m; k <= 2 * m + 1; ++k) wHigh = std::max(wHigh, std::fabs((LD)s.calcDerivative(k, xe)) / (yScale / std::pow(h, (LD)k)));
             }
         }
-        C.res("Spline.interval-is-one-polynomial.degree" + std::to_string(degree), wPoly, 1e9, "", "");
-        C.res("Spline.derivative-beyond-degree-is-zero.degree" + std::to_string(degree), wHigh / EPS, 1e9, "", "");
-        if (reproduces) C.res("Spline.reproduces-polynomial-of-degree<m.degree" + std::to_string(degree), wRep, 1e9, std::string(mode <= 2 ? "fixed-p" : "automatic-p"), "");
+        C.res("Spline.interval-is-one-polynomial.degree" + std::to_string(degree), wPoly, degBound(degree), "", "");
+        C.res("Spline.derivative-beyond-degree-is-zero.degree" + std::to_string(degree), wHigh / EPS, degBound(degree), "", "");
+        if (reproduces) C.res("Spline.reproduces-polynomial-of-degree<m.degree" + std::to_string(degree), wRep, degBound(degree), std::string(mode <= 2 ? "fixed-p" : "automatic-p"), "");
         // (d) continuity of derivatives 0..2m-2 across interior knots: the two one-sided reconstructions agree
         LD wJump = 0;
         for (int i = 1; i + 1 < n; ++i) for (int k = 0; k <= 2 * m - 2; ++k) { LD hmin = std::min(xk[i] - xk[i - 1], xk[i + 1] - xk[i]); wJump = std::max(wJump, std::fabs(left[i][k] - right[i][k]) / (EPS * yScale / std::pow(hmin, (LD)k))); }
-        C.res("Spline.derivative-continuity-at-knots.degree" + std::to_string(degree), wJump, 1e9, "", "");
+        C.res("Spline.derivative-continuity-at-knots.degree" + std::to_string(degree), wJump, degBound(degree), "", "");
         // natural end conditions: derivatives m..2m-2 vanish at both ends (GCVSPL produces natural splines)
         if (m >= 2) { LD wNat = 0; for (int k = m; k <= 2 * m - 2; ++k) { LD hs = std::min(xk[1] - xk[0], xk[n - 1] - xk[n - 2]); wNat = std::max(wNat, std::max(std::fabs(right[0][k]), std::fabs(left[n - 1][k])) / (EPS * yScale / std::pow(hs, (LD)k))); }
-            C.res("Spline.natural-end-conditions.degree" + std::to_string(degree), wNat, 1e9, "", ""); }
+            C.res("Spline.natural-end-conditions.degree" + std::to_string(degree), wNat, degBound(degree), "", ""); }
         (void)span;
         // Function_ interface, clone, copy
         std::unique_ptr<Function_<Real>> cl(s.clone()); Spline cp(s); bool same = true;
@@ -367,7 +371,7 @@ static void splineCase(verif::Run& run, int degIdx, int knotKind, int dataKind, 
                 for (int k = 0; k <= 2; ++k) { Vec3 g = k == 0 ? s3.calcValue(xe) : s3.calcDerivative(k, xe); LD r = k == 0 ? s.calcValue(xe) : s.calcDerivative(k, xe); LD h = xk[i + 1] - xk[i];
                     LD sc = EPS * yScale * cond / std::pow(h, (LD)k);
                     w3 = std::max(w3, std::max(std::fabs(g[0] - r), std::max(std::fabs(g[1] + 2 * r) / 2, std::fabs(g[2] - r - (k == 0 ? 1 : 0)))) / sc); } }
-            C.res("Spline.Vec3-components-match-scalar-splines.degree" + std::to_string(degree), w3, 1e9, "", "");
+            C.res("Spline.Vec3-components-match-scalar-splines.degree" + std::to_string(degree), w3, degBound(degree), "", "");
         }
         run.outcome(verif::hashPod(s.calcValue(0.5 * (xk[0] + xk[1]))));
     } catch (const std::exception& e) { threw = true; msg = e.what(); }
@@ -396,7 +400,7 @@ static void bicubicCase(verif::Run& run, int gridKind, int dataKind, int smoothK
         C.exp(!S.isEmpty() && S.getMinXY() == Vec2(gx[0], gy[0]) && S.getMaxXY() == Vec2(gx[nx - 1], gy[ny - 1]), "BicubicSurface.extent");
         int px, py; S.getNumPatches(px, py); C.exp(px == nx - 1 && py == ny - 1, "BicubicSurface.patch-count");
         // interpolation / reproduction
-        if (smooth == 0) { LD w = 0; for (int i = 0; i < nx; ++i) for (int j = 0; j < ny; ++j) w = std::max(w, std::fabs((LD)S.calcValue(Vec2(gx[i], gy[j])) - f(i, j))); C.res("BicubicSurface.passes-through-samples(smoothness=0)", w / (EPS * fs), 1e6); }
+        if (smooth == 0) { LD w = 0; for (int i = 0; i < nx; ++i) for (int j = 0; j < ny; ++j) w = std::max(w, std::fabs((LD)S.calcValue(Vec2(gx[i], gy[j])) - f(i, j))); C.res("BicubicSurface.passes-through-samples(smoothness=0)", w / (EPS * fs), 1e3); }
         BicubicSurface::PatchHint hint; BicubicFunction BF(S);
         LD wPoly = 0, wBil = 0, wHint = 0, wOrd = 0, wNormal = 0; LD wJump[3] = {0, 0, 0};
         std::vector<std::vector<int>> multis = {{}, {0}, {1}, {0, 0}, {0, 1}, {1, 1}, {0, 0, 0}, {0, 0, 1}, {0, 1, 1}, {1, 1, 1}};
@@ -451,18 +455,18 @@ static void bicubicCase(verif::Run& run, int gridKind, int dataKind, int smoothK
                 }
             }
         }
-        C.res("BicubicSurface.patch-is-one-bicubic-polynomial(all-partials<=3)", wPoly, 1e9);
+        C.res("BicubicSurface.patch-is-one-bicubic-polynomial(all-partials<=3)", wPoly, 1e5);
         C.exp(wHint == 0, "BicubicSurface.hint-or-BicubicFunction-differs-from-plain-call");
         C.exp(wOrd == 0, "BicubicSurface.mixed-partial-depends-on-component-order");
-        C.res("BicubicSurface.unit-normal", wNormal, 64);
-        if (dataKind == 0 && smooth == 0) C.res("BicubicSurface.reproduces-bilinear-function", wBil, 1e9);
-        C.res("BicubicSurface.continuity-across-patches.value", wJump[0], 1e9);
-        C.res("BicubicSurface.continuity-across-patches.first-derivative", wJump[1], 1e9);
-        C.res("BicubicSurface.continuity-across-patches.second-derivative", wJump[2], 1e9);
+        C.res("BicubicSurface.unit-normal", wNormal, 100);
+        if (dataKind == 0 && smooth == 0) C.res("BicubicSurface.reproduces-bilinear-function", wBil, 1e4);
+        C.res("BicubicSurface.continuity-across-patches.value", wJump[0], 1e5);
+        C.res("BicubicSurface.continuity-across-patches.first-derivative", wJump[1], 1e5);
+        C.res("BicubicSurface.continuity-across-patches.second-derivative", wJump[2], 1e5);
         // regular-spacing constructor describes the same surface
         if (regular) { BicubicSurface R(Vec2(gx[0], gy[0]), Vec2(gx[1] - gx[0], gy[1] - gy[0]), f, smooth); LD w = 0;
             for (int i = 0; i + 1 < nx; ++i) for (int j = 0; j + 1 < ny; ++j) { Vec2 p(0.3 * gx[i] + 0.7 * gx[i + 1], 0.6 * gy[j] + 0.4 * gy[j + 1]); w = std::max(w, std::fabs((LD)R.calcValue(p) - S.calcValue(p)) / (EPS * fs)); }
-            C.res("BicubicSurface.regular-spacing-constructor-agrees", w, 1e6); }
+            C.res("BicubicSurface.regular-spacing-constructor-agrees", w, 1e3); }
         // range: defined inside (edges included), refused outside
         C.exp(S.isSurfaceDefined(Vec2(gx[0], gy[0])) && S.isSurfaceDefined(Vec2(gx[nx - 1], gy[ny - 1])) && !S.isSurfaceDefined(Vec2(gx[0] - 1e-9, gy[0])) && !S.isSurfaceDefined(Vec2(gx[0], gy[ny - 1] + 1e-9)), "BicubicSurface.isSurfaceDefined");
         { bool t = false; try { (void)S.calcValue(Vec2(gx[nx - 1] + 1, gy[0])); } catch (const std::exception&) { t = true; } C.exp(t, "BicubicSurface.out-of-range-evaluation-not-refused"); }
@@ -482,7 +486,7 @@ int main(int argc, char** argv) {
     const int64_t nFunc = 5 * 200;
     run.parallel("functions", nFunc, [&](int64_t i) { functionCases(run, i, thorough); });
     run.parallel("steps", 2, [&](int64_t i) { if (i == 0) stepCases<double>(run, "double"); else stepCases<float>(run, "float"); });
-    verif::Odometer os; os.dim("mode", 6); os.dim("data", 9); os.dim("knots", 5); os.dim("degree", 4);
+    verif::Odometer os; os.dim("mode", 6); os.dim("data", 9); os.dim("knots", thorough ? 7 : 5); os.dim("degree", 4);
     run.parallel("splines", os.size(), [&](int64_t i) { auto d = os.digits(i); splineCase(run, d[3], d[2], d[1], d[0]); if (i % 97 == 0) run.sample("spline case " + os.describe(i)); });
     verif::Odometer ob; ob.dim("smooth", 2); ob.dim("data", 4); ob.dim("grid", 3);
     run.parallel("bicubic", ob.size(), [&](int64_t i) { auto d = ob.digits(i); bicubicCase(run, d[2], d[1], d[0]); });
